@@ -98,7 +98,7 @@ func TestC01(t *testing.T) {
 	if os.Getenv("VERIF_ONLY_REGRESS") != "" {
 		return
 	}
-	kit.SetRapid(kit.N(480, 24000))
+	kit.SetRapid(kit.N(480, 12000))
 	rapid.Check(t, kit.Prop("C01", func(t *rapid.T) {
 		w := kit.GenWorld(t, kit.GenOpts{})
 		names := kit.QueryNames(w)
